@@ -84,7 +84,7 @@ structure Disk where
   infra : FileSt Gen            -- gen_infrastructure.p
   emis : Nat → FileSt Gen       -- gen_infrastructure_emissions_{i}.p
   count : FileSt Nat            -- n_sim_saved.p
-  ts : FileSt Unit              -- preseed.p (daily seed time series)
+  ts : FileSt (Nat × Nat)       -- preseed.p (daily seed series): (first day, number of days) it covers
 
 def Disk.empty : Disk := ⟨.absent, .absent, .absent, fun _ => .absent, .absent, .absent⟩
 
@@ -102,7 +102,7 @@ inductive Step where
   | wrInfra (g : Gen)
   | wrEmis (i : Nat) (g : Gen)
   | wrCount (n : Nat)
-  | wrTs
+  | wrTs (p : Nat × Nat)
   | rm (f : FileId)
   deriving DecidableEq, Repr
 
@@ -118,7 +118,7 @@ def Step.apply (s : Step) (d : Disk) : Disk :=
   | .wrInfra g => { d with infra := .ok g }
   | .wrEmis i g => d.setEmis i (.ok g)
   | .wrCount n => { d with count := .ok n }
-  | .wrTs => { d with ts := .ok () }
+  | .wrTs p => { d with ts := .ok p }
   | .rm f => d.remove f
 
 /-- the step is interrupted inside its `pickle.dump`: the file was opened (truncated) already.
@@ -130,7 +130,7 @@ def Step.tear (s : Step) (d : Disk) : Disk :=
   | .wrInfra _ => { d with infra := .torn }
   | .wrEmis i _ => d.setEmis i .torn
   | .wrCount _ => { d with count := .torn }
-  | .wrTs => { d with ts := .torn }
+  | .wrTs _ => { d with ts := .torn }
   | .rm _ => d
 
 def applyAll (l : List Step) (d : Disk) : Disk := l.foldl (fun d s => s.apply d) d
@@ -167,7 +167,12 @@ structure Tbl where
   /-- files written by `gen_seed_emis` (one per branch) and by `gen_seed_timeseries` -/
   seedWrites : List FileId
   tsWrites : List FileId
-  deriving Repr
+  /-- `gen_seed_timeseries` reuses the stored series only if it covers exactly the current first
+  and last day (true), or already when its length matches (false: the unrepaired rule) -/
+  tsExact : Bool
+  /-- harness convention, not extracted: the simulated period (first day, number of days) written in
+  content number `v` of the virtual-world dictionary (the dates are part of that dictionary) -/
+  periodOf : Nat → Nat × Nat
 
 def storeOf (hashed : List (String × Input)) (vv : VV) : Store :=
   hashed.map fun p => (p.1, vv.get p.2)
@@ -227,12 +232,16 @@ def emisStage (t : Tbl) (n : Nat) (hfe : Bool) (mem : Gen) (d : Disk) : Option (
   else
     some (instPhases t.emisRegen mem 0 n)
 
+/-- the reuse test of `gen_seed_timeseries` -/
+def tsReuse (t : Tbl) (stored cur : Nat × Nat) : Bool :=
+  stored.2 == cur.2 && (!t.tsExact || stored.1 == cur.1)
+
 /-- `gen_seed_timeseries` at the end of `initialize_emissions` -/
-def tsStage (d : Disk) : Option (List Step) :=
+def tsStage (t : Tbl) (vv : VV) (d : Disk) : Option (List Step) :=
   match d.ts with
   | .torn => none
-  | .ok _ => some []
-  | .absent => some [.wrTs]
+  | .ok p => some (if tsReuse t p (t.periodOf vv.vw) then [] else [.wrTs (t.periodOf vv.vw)])
+  | .absent => some [.wrTs (t.periodOf vv.vw)]
 
 structure Plan where
   steps : List Step
@@ -251,7 +260,7 @@ def plan (t : Tbl) (vv : VV) (gid n : Nat) (d : Disk) : Plan :=
       match emisStage t n hfe mem d with
       | none => ⟨s1 ++ s2, none⟩
       | some s3 =>
-        match tsStage d with
+        match tsStage t vv d with
         | none => ⟨s1 ++ s2 ++ s3, none⟩
         | some s4 => ⟨s1 ++ s2 ++ s3 ++ s4, some mem⟩
 
@@ -263,6 +272,7 @@ inductive Op where
   | crash (n k : Nat)                -- interrupted before its `k`-th file effect
   | tear (n k : Nat)                 -- interrupted inside the `pickle.dump` of its `k`-th effect
   | del (f : FileId)                 -- the user deletes a generator file
+  | delEmis (i : Nat)                -- the user deletes the emission file of simulation `i`
   deriving DecidableEq, Repr
 
 structure St where
@@ -285,6 +295,7 @@ def exec (t : Tbl) (s : St) : Op → St
   | .tear n k =>
     { s with disk := tearAt (plan t s.vv s.gid n s.disk).steps k s.disk, gid := s.gid + 1 }
   | .del f => { s with disk := s.disk.remove f }
+  | .delEmis i => { s with disk := s.disk.setEmis i .absent }
 
 def execAll (t : Tbl) (s : St) (h : List Op) : St := h.foldl (exec t) s
 
@@ -294,5 +305,17 @@ def nextPlan (t : Tbl) (s : St) (n : Nat) : Plan := plan t s.vv s.gid n s.disk
 /-- the write order and reuse condition of the repaired code (what the theorems need) -/
 def safeIOps : List IOp := [.rm .count, .wrHashes, .wrInfra]
 def safePhases : List Phase := [.emisLoop, .count]
+
+/-- NOT a history op of the statement: the user copies an emission file of some other generation
+back into the folder (nothing in the folder identifies an emission file, see `Props/C17.lean`) -/
+def St.restoreEmis (s : St) (i : Nat) (g : Gen) : St := { s with disk := s.disk.setEmis i (.ok g) }
+
+def Op.isDelEmis : Op → Bool
+  | .delEmis _ => true
+  | _ => false
+
+def Op.isTear : Op → Bool
+  | .tear _ _ => true
+  | _ => false
 
 end LdarModel.Cache
